@@ -164,6 +164,17 @@ def run_case(case, ctx):
                 continue
             if X.by_version.get(name) is None and name not in X.canonic_python_version:
                 ctx.violation("name-unindexed:%s" % name, "release name not in by_version / canonic_python_version")
+            # a pre-release the tables name ("3.8.0a1", "3.12.0rc2"): sysinfo2magic of that interpreter's sys.version_info
+            pm = re.match(r"^(\d)\.(\d+)\.(\d+)(a|b|rc|c)(\d+)$", name)
+            if pm:
+                ctx.count("pre_release_names")
+                vi = (int(pm.group(1)), int(pm.group(2)), int(pm.group(3)), {"a": "alpha", "b": "beta", "rc": "candidate", "c": "candidate"}[pm.group(4)], int(pm.group(5)))
+                try:
+                    got = X.magic2int(X.sysinfo2magic(vi))
+                    if got != X.magic2int(mg):
+                        ctx.violation("sysinfo2magic-pre-release:%s" % name, "sysinfo2magic(%r) gives %d, the tables say %s writes %d" % (vi, got, name, X.magic2int(mg)))
+                except Exception as e:
+                    ctx.violation("sysinfo2magic-pre-release-raises:%s" % name, "sysinfo2magic(%r) raised %r" % (vi, e))
             mm = re.match(r"^(\d)\.(0|[1-9]\d*)(?:\.(\d+))?$", name)  # '3.000' is Python 3000, not a release
             if not mm:
                 continue
@@ -196,6 +207,17 @@ def run_case(case, ctx):
                 ctx.violation("host-magic:%d.%d" % sys.version_info[:2], "sysinfo2magic() %r != MAGIC_NUMBER %r" % (X.sysinfo2magic(), MAGIC_NUMBER))
         except Exception as e:
             ctx.violation("host-magic-raises:%d.%d" % sys.version_info[:2], repr(e))
+        for v, r in sorted(case["real"].items()):
+            vi = tuple(r["version_info"])
+            for level, serial in (("candidate", 1), ("candidate", 2), ("candidate", 3)):
+                ctx.count("release_candidates")
+                try:
+                    got = X.sysinfo2magic((vi[0], vi[1], 0, level, serial))
+                    # a release candidate writes the magic of its final release (no magic changes after beta)
+                    if X.magic2int(got) != m_magic.FINAL[common.vt(v)] and not (common.vt(v) == (3, 5)):
+                        ctx.violation("sysinfo2magic-rc:%s" % v, "sysinfo2magic(%r) = %d, %s final writes %d" % ((vi[0], vi[1], 0, level, serial), X.magic2int(got), v, m_magic.FINAL[common.vt(v)]))
+                except Exception as e:
+                    ctx.violation("sysinfo2magic-rc-raises:%s" % v, "sysinfo2magic(%r) raised %r" % ((vi[0], vi[1], 0, level, serial), e))
         for v, r in sorted(case["real"].items()):
             ctx.count("real_interpreters")
             try:
